@@ -282,6 +282,7 @@ class World:
         self._rid = 0
         self._sid = 0
         self.dead_ops: set[str] = set()
+        self.on_write: Callable[[int, dict], None] | None = None
         for k in (kinds if kinds is not None else [NAMESPACES, EVENTS, CRDS, KEX]):
             self.add_kind(k)
 
@@ -343,6 +344,8 @@ class World:
                 pre: dict | None, post: dict | None, rid: int | None = None) -> None:
         self.writes.append(dict(t=self.clock(), actor=actor, kind=kind.plural, ns=ns, name=name,
                                 verb=verb, pre=pre, post=copy.deepcopy(post), rid=rid))
+        if self.on_write is not None:
+            self.on_write(len(self.writes) - 1, self.writes[-1])
 
     def get(self, kind: Kind, ns: str | None, name: str) -> dict | None:
         return self.objects[kind.key].get((ns if kind.namespaced else None, name))
